@@ -726,3 +726,58 @@ Proof.
   - injection H as <- <-. apply advance_reg.
   - rewrite Ho in H. destruct (step_thread np0 _ _) as [s' u']. injection H as <- <-. split; [reflexivity|destruct r; reflexivity].
 Qed.
+
+Lemma T3_mono ms ms' t : grows_to ms ms' -> T3 ms t -> T3 ms' t.
+Proof.
+  intros G I. pose proof G as [N C]. unfold T3 in *. destruct (m_walks t) as [|w ws].
+  - destruct I as [I Q]. split; [eapply CIb_mono; eauto|]. unfold NQ in *. rewrite N. exact Q.
+  - destruct (w_own w) as [[r c]|].
+    + destruct I as [I (Gr & NL & (R1 & R2 & R3) & Ho & g0 & P2 & PG & NN & QC & PH)]. split; [eapply CIb_mono; eauto|].
+      unfold NW. rewrite N. split; [exact Gr|]. split; [exact NL|]. split; [unfold rc3; rewrite N; auto|]. split; [exact Ho|].
+      exists g0. repeat (split; [assumption|]). destruct (m_pc t); auto.
+      * destruct PH as (pre & rest & A1 & A2 & A3 & A4 & A5 & A6). exists pre, rest. repeat (split; [assumption|]).
+        split; [eapply snap_ok_mono; eauto|]. auto.
+      * destruct PH as (pre & A2 & A3 & A4 & A6). exists pre. split; [assumption|]. split; [eapply snap_ok_mono; eauto|]. auto.
+    + destruct I as [I Q]. split; [eapply CIb_mono; eauto|]. unfold NQ in *. rewrite N. exact Q.
+Qed.
+
+(* the registration facts of a thread that satisfies T3 *)
+Lemma T3_base ms t : T3 ms t -> exists tb, CIb ms tb /\ m_isadd tb = m_isadd t /\ m_k tb = m_k t /\ m_wrote tb = m_wrote t /\
+  (susp t = false -> tb = t).
+Proof.
+  unfold T3, susp. destruct (m_walks t) as [|w ws]; [intros [I _]; exists t; auto|].
+  destruct (w_own w) as [[r c]|]; [|intros [I _]; exists t; auto].
+  intros [I _]. exists (bview t r c ws). split; [exact I|]. unfold bview. destruct r; cbn; repeat split; auto; discriminate.
+Qed.
+Lemma T3_wrote_claimed ms t : T3 ms t -> m_isadd t = true -> m_wrote t = true -> claimed ms (m_k t) = true /\ (m_k t < nc ms)%nat.
+Proof.
+  intros I Ea Hw. destruct (T3_base _ _ I) as (tb & Ib & E1 & E2 & E3 & _).
+  rewrite <- E2. apply (CI_wrote_claimed ms tb Ib); congruence.
+Qed.
+Lemma T3_susp_pc ms t : T3 ms t -> susp t = true -> exists w ws rc, m_walks t = w :: ws /\ w_own w = Some rc /\
+  (m_pc t = MHead \/ m_pc t = MRun \/ m_pc t = MNext \/ m_pc t = MClose).
+Proof.
+  unfold T3, susp. destruct (m_walks t) as [|w ws]; [discriminate|]. destruct (w_own w) as [[r c]|] eqn:Ho; [|discriminate].
+  intros [_ (_ & _ & _ & _ & g0 & _ & _ & _ & _ & PH)] _. exists w, ws, (r, c). split; [reflexivity|]. split; [exact Ho|].
+  destruct (m_pc t); try contradiction; auto.
+Qed.
+
+Lemma thread_reg ms t0 ms1 t1 : T3 ms t0 -> mstep_core ms t0 = (ms1, t1) ->
+  (m_pc t0 = MRLink -> m_isadd t0 = true /\ m_wrote t0 = true /\ reg_phase t0 = true) /\
+  (m_isadd t0 = true -> reg_phase t1 = true -> m_wrote t1 = true ->
+     (reg_phase t0 = true /\ m_wrote t0 = true /\ (m_pc t0 = MRLink -> ms_list ms1 = ms_list ms)) \/
+     (claimed ms (m_k t0) = false /\ ms_list ms1 = ms_list ms)) /\
+  (m_isadd t0 = true -> m_wrote t1 = true -> m_wrote t0 = true \/ claimed ms (m_k t0) = false).
+Proof.
+  intros I Hc. destruct (susp t0) eqn:Es.
+  - destruct (T3_susp_pc _ _ I Es) as (w & ws & rc & Hw & Ho & Hp).
+    destruct (core_susp _ _ _ _ _ _ _ Hw Ho Hp Hc) as [R Wr].
+    split; [intros X; destruct Hp as [Hp|[Hp|[Hp|Hp]]]; congruence|]. split; [intros _ X; congruence|]. intros _ X. left. congruence.
+  - apply (T3_unsusp ms t0 Es) in I. destruct I as [I0 _]. split; [|split].
+    + intros Hp. destruct (m_isadd t0) eqn:Ea.
+      * destruct I0 as (_ & X). rewrite Ea in X. destruct X as (_ & _ & _ & _ & _ & _ & _ & A8). rewrite Hp in A8.
+        unfold reg_phase. rewrite Hp. repeat split; apply A8.
+      * destruct (CI_chg_wrote _ _ I0 Ea) as [_ R]. unfold reg_phase in R. rewrite Hp in R. discriminate.
+    + intros Ea Hr Hw. destruct (core_wrote_add _ _ _ _ Hc I0 Ea) as [_ X]. exact (X Hr Hw).
+    + intros Ea Hw. destruct (core_wrote_add _ _ _ _ Hc I0 Ea) as [[X|(X1 & X2 & _)] _]; [left; congruence | right; exact X2].
+Qed.
